@@ -41,8 +41,8 @@ DONE = {
   note="Trusts ed25519 (signatures are verified by the oracle with iroh::PublicKey::verify over independently assembled bytes); forged entries are built through the public serde encoding.",
   technique=PBT + " + exhaustive single-bit-flip enumeration: metamorphic tampering vs. validity-predicate oracle on two ingress paths"),
  "C12": dict(level="exploration",
-  text="Histories through the store actor (local writes, valid / superseded / invalid remote inserts, crafted messages, real sessions during which a local write obsoletes in-flight entries, subscribers joining, unsubscribing and dropping, policy changes, all content-status values); after every request each channel is drained and compared as an exact event sequence with the model applied to the step's valid entries in processing order, plus model-independent clauses (no event on error, only offered entries, all subscribers agree, nothing after leaving).",
-  note="Channels have capacity 4096 so the actor never blocks; a post-state that differs from the model is attributed to C02 and only model-independent clauses are judged.",
+  text="Histories through the store actor (local writes, valid / superseded / invalid remote inserts, crafted messages, real sessions during which a local write obsoletes in-flight entries, subscribers joining, unsubscribing and dropping, policy changes, all content-status values); after every request each channel is drained and compared as an exact event sequence with the model applied to the step's valid entries in processing order, plus model-independent clauses (no event on error, only offered entries, all subscribers agree, nothing after leaving). 1 % of the cases are live swarms of real nodes on the loopback network driven through the client API: every acknowledged local write appears once and in order as a local insert event at the writing node's client subscriber, every foreign entry held at quiescence appeared exactly once as a remote insert naming one of the other nodes, and there is no remote insert event for an entry nobody wrote, for the node's own entry, or twice.",
+  note="The live cases are scheduled by the real network (not a pure function of the seed; only timing-independent clauses are judged, and only after a stable closing sweep). Channels have capacity 4096 so the actor never blocks; a post-state that differs from the model is attributed to C02 and only model-independent clauses are judged.",
   technique=PBT + ": event-sequence oracle from the reference model over observed pre-states"),
  "C14": dict(level="exploration",
   text="Sequential client histories over three documents covering every request kind of the store handle, plus a concurrent variant (two client threads; Wing-Gong linearizability search against the same model) and a pipelined variant (one client enqueues a batch without awaiting any reply; replies and final contents must equal sequential execution in issue order); a per-document model {exists, handles, sync, subscribers, entries} predicts each reply's success class, close's boolean, get_state and the contents; failed requests (including store mutations that fail inside the store, e.g. settings for unknown documents) must change nothing; the store returned by shutdown must hold every acknowledged write.",
@@ -69,8 +69,8 @@ DONE = {
   note="connect_and_sync / handle_connection themselves are replaced by synthetic results (their QUIC behaviour is not explored); handlers are atomic as in the actor loop.",
   technique=PBT + ": schedule exploration of the two-node coordination state machine with history invariants"),
  "C04": dict(level="exploration",
-  text="2..=5 replicas with skewed clocks go through generated histories of local writes and deletions, arbitrary (lost, duplicated, reordered) deliveries of written entries, reconciliation sessions cut after a generated number of messages and restarts of file-backed replicas; then complete sessions are swept along a generated connected pair set until nothing moves. A fifth of the histories run with every replica behind a store actor: writes, deliveries and restarts through SyncHandle, sessions through the real initiator / acceptor over in-memory streams that a proxy cuts after the generated number of frames. At every step every stored entry must be byte-identical to a locally written one; at quiescence all replicas must equal the order-free merge of all accepted local writes, within n+2 sweeps.",
-  note="'Eventually' is checked as safety at quiescence of the closing sweeps; gossip is modelled as per-entry delivery through insert_remote_entry; skews within +-290 s.",
+  text="2..=5 replicas with skewed clocks go through generated histories of local writes and deletions, arbitrary (lost, duplicated, reordered) deliveries of written entries, reconciliation sessions cut after a generated number of messages and restarts of file-backed replicas; then complete sessions are swept along a generated connected pair set until nothing moves. A fifth of the histories run with every replica behind a store actor: writes, deliveries and restarts through SyncHandle, sessions through the real initiator / acceptor over in-memory streams that a proxy cuts after the generated number of frames. At every step every stored entry must be byte-identical to a locally written one; at quiescence all replicas must equal the order-free merge of all accepted local writes, within n+2 sweeps. About 1.5 % of the cases are live swarms: 2..=4 real nodes (endpoint, gossip, blob store, the Docs engine behind a protocol router; memory or file-backed, some holding only the read capability, each with a generated download policy) on the loopback network, driven through the client API with writes, deletions, leave / re-join, restarts from disk and pauses; no node may ever hold an entry nobody wrote, a read-only node may never write or share write access, a restart may not lose an entry, and on a stable closing sweep (every pair of a connected pair set reported enough successful sessions that one of them ran entirely inside the sweep, and no node changed during the sweep) all nodes must equal the merge; client subscribers must have seen every local write once, every held foreign entry exactly once as a remote insert from one of the other nodes, and no blob may be present that the node neither added itself nor was allowed to fetch by its policy.",
+  note="'Eventually' is checked as safety at quiescence of the closing sweeps; gossip is modelled as per-entry delivery through insert_remote_entry in the plain families; skews within +-290 s. The live family is scheduled by the real network and the tokio runtime, so it is not a pure function of the seed: its verdicts are built to be independent of timing, and a case in which no stable sweep is reached within the time budget is counted and not judged on convergence.",
   technique=PBT + ": multi-replica history exploration with convergence-to-merge oracle at quiescence"),
  "C05": dict(level="exploration",
   text="For generated replica states, generated queries over the full product of query options are compared, as exact sequences, with a naive filter/group/sort/skip/take executor over the store's actual contents; point lookups and the two physical access paths are cross-checked.",
